@@ -110,5 +110,18 @@ PROPS["C06"] = {
     "technique": "runtime monitoring: canary/tag confinement monitor + reference-resolver oracle over bounded-exhaustive request paths",
 }
 
+PROPS["C17"] = {
+    "level": "exploration",
+    "engines": [
+        {"bin": "hv", "args": ["c17"]},
+    ],
+    "min": {"quick": {"sequences": 150, "operations": 3000, "token_probes": 10_000, "route_requests": 500, "sessions_expired_at_birth": 100},
+            "thorough": {"sequences": 2400}},
+    "assumptions": [],
+    "level_text": "Random operation sequences are executed on the real AuthProvider while a reference model is stepped alongside; every return value is compared and every token ever issued (and, when the user set changes, every password x uid) is probed after each step; the authenticated-route clause is observed on a real App over loopback.",
+    "level_note": "Trusted: the reference model in c17.rs. Expiry is made logical (lifetime 0 vs 3600 s), so no wall-clock decision is involved.",
+    "technique": "runtime monitoring: model-based history checking with full-state probes after every operation",
+}
+
 # properties without a check, with the reason (kept current)
 NOT_CLAIMED = {}
